@@ -67,6 +67,10 @@ CELLS = [
     (4, "abab", 1, 0, False),
     (4, "aabb", 2, 1, False),
     (4, "aaab", 1, 0, False),
+    # traced cells: every trace callback suspends until the harness resumes it (TraceConfig with yielding callbacks)
+    (3, "aaa", 1, 0, False, True),
+    (3, "aab", 2, 1, False, True),
+    (2, "aa", 1, 0, False, True),
 ]
 
 
@@ -74,7 +78,7 @@ def shards(tier, seed):
     out = []
     q = tier == "quick"
     for i, c in enumerate(CELLS):
-        if q and c[0] == 4 and i % 2 == 1:
+        if q and c[0] == 4 and i % 2 == 1 and len(c) == 5:
             continue
         out.append({"kind": "dfs", "sub": i, "cell": c, "max_events": (7 if c[0] == 3 else 6) if q else (9 if c[0] == 3 else 8),
                     "max_states": 6000 if q else 120000, "max_nosettle": 1 if q else 2, "max_cancel": 1 if q else 2})
@@ -106,7 +110,11 @@ class PoolRun:
         from yarl import URL
 
         self.cell = cell
-        n, hosts, limit, lph, force_close = cell
+        n, hosts, limit, lph, force_close = cell[:5]
+        self.traced = len(cell) > 5 and cell[5]
+        self.trace_gates = {}
+        self.reuse_bypass = {}
+        self.establishing = {}  # traced cells: task -> key, from the create_start trace to success/failure of connect()
         self.n, self.hosts, self.limit, self.lph = n, hosts, limit, lph
         self.loop = loop = VLoop()
         random.seed(rseed)
@@ -160,6 +168,11 @@ class PoolRun:
 
     # ---- ground truth -------------------------------------------------------------------------------
     def in_use(self, key=None):
+        if self.traced:
+            # with traces the establishment of a connection starts at the create_start trace (harness-side event)
+            if key is None:
+                return len(self.establishing) + len(self.held)
+            return sum(1 for k in self.establishing.values() if k == key) + sum(1 for k, _c, _p in self.held.values() if k == key)
         if key is None:
             return sum(self.in_progress.values()) + len(self.held)
         return self.in_progress.get(key, 0) + sum(1 for k, _c, _p in self.held.values() if k == key)
@@ -172,7 +185,7 @@ class PoolRun:
             self.max_in_use = tot
         # connections taken from the idle pool at a moment when the limit was already reached (listed mechanism):
         # the classifier asks whether the excess is explained by those alone
-        byp = [k for k, _c, p in self.held.values() if p == "bypass"]
+        byp = [k for k, _c, p in self.held.values() if p == "bypass"] + [self.establishing[i] for i, b in self.reuse_bypass.items() if b and i in self.establishing]
         if self.limit and tot > self.limit:
             how = "via-idle-pool-reuse" if tot - len(byp) <= self.limit else "new-connection"
             self.viol(f"I1:limit-exceeded:{how}", f"in use or being established = {tot} > limit {self.limit} (taken from the idle pool past the limit: {len(byp)})")
@@ -190,17 +203,53 @@ class PoolRun:
             self.violations.append((mech, summ))
 
     # ---- actors -------------------------------------------------------------------------------------
+    def _traces(self, i):
+        if not self.traced:
+            return []
+        run = self
+
+        class GateTrace:
+            def __getattr__(self, name):
+                if not name.startswith("send_"):
+                    raise AttributeError(name)
+
+                async def cb(*a, **k):
+                    if name in ("send_connection_create_start", "send_connection_reuseconn"):
+                        # from here on the connector has reserved a slot / taken an idle connection for task i
+                        key = run.reqs[i].connection_key
+                        if name == "send_connection_reuseconn":
+                            past = (run.limit and run.in_use() >= run.limit) or (run.lph and run.in_use(key) >= run.lph)
+                            run.reuse_bypass[i] = bool(past)
+                        run.establishing[i] = key
+                    f = run.loop.create_future()
+                    run.trace_gates[i] = (name, f)
+                    try:
+                        await f
+                    finally:
+                        if run.trace_gates.get(i, (None, None))[1] is f:
+                            del run.trace_gates[i]
+
+                return cb
+
+        return [GateTrace()]
+
     async def _task(self, i):
         req = self.reqs[i]
         n_att = len(self.attempts)
         try:
-            c = await self.conn.connect(req, [], self.timeout)
+            c = await self.conn.connect(req, self._traces(i), self.timeout)
         except BaseException as e:
             self.outcome[i] = "exc:" + type(e).__name__
+            self.establishing.pop(i, None)
+            self.reuse_bypass.pop(i, None)
             raise
+        self.establishing.pop(i, None)
+        rb = self.reuse_bypass.pop(i, None)
         from_pool = not any(a.task == i and a.state == "ok" for a in self.attempts[n_att:])
         key = req.connection_key
         past = (self.limit and self.in_use() >= self.limit) or (self.lph and self.in_use(key) >= self.lph)
+        if rb is not None:
+            past = rb  # decided when the idle connection was actually taken (before the reuse trace suspended)
         self.held[i] = (key, c, ("bypass" if past else "pool") if from_pool else False)
         self.outcome[i] = "held"
         self.check_I1()
@@ -214,6 +263,9 @@ class PoolRun:
             if a.state == "pending" and not a.fut.done():
                 ev.append(("ok", a.aid))
                 ev.append(("fail", a.aid))
+        for i in sorted(self.trace_gates):
+            if not self.trace_gates[i][1].done():
+                ev.append(("trace", i))
         for i, t in enumerate(self.tasks):
             if t is not None and not t.done():
                 ev.append(("cancel", i))
@@ -240,6 +292,10 @@ class PoolRun:
         elif kind == "fail":
             self.attempts[x].state = "failed"
             self.attempts[x].fut.set_exception(OSError("connect failed"))
+        elif kind == "trace":
+            g = self.trace_gates.get(x)
+            if g is not None and not g[1].done():
+                g[1].set_result(None)
         elif kind == "cancel":
             self.tasks[x].cancel()
         elif kind in ("release", "close"):
@@ -287,8 +343,8 @@ class PoolRun:
         if len(c._acquired) != self.in_use():
             self.viol("I2:acquired-table-differs-from-ground-truth", f"len(_acquired)={len(c._acquired)} ground truth={self.in_use()} (in_progress={dict((k.host, v) for k, v in self.in_progress.items())}, held={sorted(self.held)})")
         # I3 stuck waiter
-        if self.loop._ready:
-            return
+        if self.loop._ready or any(not g[1].done() for g in self.trace_gates.values()):
+            return  # a task suspended in a trace callback may be the one holding the wake-up
         wk = self.waiting_tasks()
         if wk:
             self.contended = True
@@ -303,10 +359,14 @@ class PoolRun:
         c = self.conn
         if self.closed_connector:
             lp.settle(20000)
-            for a in self.attempts:
-                if a.state == "pending" and not a.fut.done():
-                    a.fut.set_result(None)  # the attempt completes after close(): connect() must refuse it
-            lp.settle(20000)
+            for _ in range(12):
+                for a in self.attempts:
+                    if a.state == "pending" and not a.fut.done():
+                        a.fut.set_result(None)  # the attempt completes after close(): connect() must refuse it
+                for i in sorted(self.trace_gates):
+                    if not self.trace_gates[i][1].done():
+                        self.trace_gates[i][1].set_result(None)
+                lp.settle(20000)
             lp.advance(8)
             for p in self.pipes:
                 if not p.a.closing:
@@ -316,7 +376,8 @@ class PoolRun:
                 if t is not None and not t.done():
                     self.viol("I5:waiter-not-failed-by-close", f"task {i} still pending after connector.close()")
                     break
-                if t is not None and not t.cancelled() and t.exception() is None and self.outcome[i] == "held" and i not in getattr(self, "held_at_close", {}):
+                if (t is not None and not t.cancelled() and t.exception() is None and self.outcome[i] == "held" and i not in getattr(self, "held_at_close", {})
+                        and i in self.held and self.held[i][1].transport is not None and not self.held[i][1].transport.is_closing()):
                     self.viol("I5:connect-succeeded-after-close", f"task {i} obtained a connection after connector.close()")
             if not self.close_task.done():
                 self.viol("I5:close-did-not-return", "connector.close() still pending")
@@ -349,9 +410,16 @@ class PoolRun:
                 a.fut.set_exception(OSError("late failure"))
         lp.settle(20000)
         guard = 0
-        while guard < 50:
+        while guard < 80:
             guard += 1
             progressed = False
+            for i in sorted(self.trace_gates):
+                if not self.trace_gates[i][1].done():
+                    self.apply(("trace", i))
+                    progressed = True
+                    break
+            if progressed:
+                continue
             for i in sorted(self.held):
                 self.apply(("release", i))
                 progressed = True
@@ -371,6 +439,11 @@ class PoolRun:
             for i in pend:
                 self.tasks[i].cancel()
             lp.settle(20000)
+        pooled = {id(p.transport) for lst in c._conns.values() for p, _t in lst}
+        for pipe in self.pipes:
+            if not pipe.a.closing and id(pipe.a) not in pooled:
+                self.viol("I4:transport-neither-held-nor-pooled-nor-closed", "a transport the connector created is still open although no caller holds it and it is not in the idle pool")
+                break
         if len(c._acquired) or any(c._acquired_per_host.values()):
             self.viol("I4:acquired-not-empty-at-end", f"_acquired={len(c._acquired)} per_host={[len(v) for v in c._acquired_per_host.values()]}")
         if any(len(q) for q in c._waiters.values()):
@@ -391,7 +464,7 @@ class PoolRun:
         waiters = tuple((k.host, tuple(self._fut_owner(f) for f in q)) for k, q in c._waiters.items())
         idle = tuple(sorted((k.host, len(v)) for k, v in c._conns.items()))
         atts = tuple((a.task, a.state if a.fut.done() or a.state != "pending" else "pending") for a in self.attempts if a.state == "pending")
-        return (tuple(ts), waiters, idle, atts, len(c._acquired), tuple(sorted((i, k.host) for i, (k, _c, _p) in self.held.items())), self.closed_connector, bool(self.loop._ready),
+        return (tuple(ts), tuple(sorted((i, g[0]) for i, g in self.trace_gates.items())), waiters, idle, atts, len(c._acquired), tuple(sorted((i, k.host) for i, (k, _c, _p) in self.held.items())), self.closed_connector, bool(self.loop._ready),
                 tuple(sorted((k.host, len(v)) for k, v in c._acquired_per_host.items())))
 
     def _fut_owner(self, f):
@@ -487,7 +560,7 @@ def dfs(spec, rec):
     rec.count("dfs-states", stats["states"])
     rec.count("dfs-transitions", stats["transitions"])
     rec.count("dfs-complete-schedules", stats["complete"])
-    rec.set_exhaustive(f"cell{spec['sub']}:N={cell[0]},hosts={cell[1]},L={cell[2]},Lh={cell[3]},fc={cell[4]},events<={spec['max_events']}", not truncated[0])
+    rec.set_exhaustive(f"cell{spec['sub']}:N={cell[0]},hosts={cell[1]},L={cell[2]},Lh={cell[3]},fc={cell[4]},traced={len(cell) > 5 and cell[5]},events<={spec['max_events']}", not truncated[0])
     if truncated[0]:
         rec.note(f"cell {cell}: state budget {budget} reached; enumeration truncated (reported as not exhaustive)")
 
@@ -498,7 +571,7 @@ def random_schedules(spec, rec):
         n = rng.randint(3, 12)
         nh = rng.choice([1, 2, 3])
         hosts = "".join(rng.choice("abc"[:nh]) for _ in range(n))
-        cell = (n, hosts, rng.choice([1, 2, 3]), rng.choice([0, 0, 1, 2]), rng.random() < 0.15)
+        cell = (n, hosts, rng.choice([1, 2, 3]), rng.choice([0, 0, 1, 2]), rng.random() < 0.15, rng.random() < 0.3)
         run = PoolRun(cell, rseed=i)
         schedule = []
         try:
@@ -506,7 +579,7 @@ def random_schedules(spec, rec):
                 en = run.enabled()
                 if not en:
                     break
-                weights = [{"start": 5, "ok": 5, "fail": 1.5, "cancel": 1, "release": 4, "close": 1.5, "connector_close": 0.15, "timeout": 0.2, "expire": 0.3}[e[0]] for e in en]
+                weights = [{"start": 5, "ok": 5, "fail": 1.5, "cancel": 1, "release": 4, "close": 1.5, "connector_close": 0.15, "timeout": 0.2, "expire": 0.3, "trace": 6}[e[0]] for e in en]
                 ev = rng.choices(en, weights)[0]
                 settle = rng.random() > 0.25
                 schedule.append((ev, settle))
